@@ -11,8 +11,8 @@ expression tokens (Polish notation, fixed arity):
   c:eq|ne|lt|le|gt|ge e e    and e e    or e e    a:+|-|* e e    if e e e
         q:<m>/<k> (xs:decimal m / 10^k)   u:<hex>… (xs:untypedAtomic)   n:<i> (node, pre-order index)
         d:-0 (negative zero);  doc=<hex>…|<hex>…|- … the string values of the nodes (`-` = empty, `_` = no document)
-Answer:  model=<result> spec=<result> k=<0|1> q=<0|1> lazy=<result> errs=<codes|_>
-         (k, q: triggers of the findings F08b, F08q; lazy / errs: the permitted outcomes, Spec.Permitted)
+Answer:  model=<result> spec=<result> k=<0|1> q=<0|1> t=<0|1> lazy=<result> errs=<codes|_>
+         (k, q, t: triggers of the findings F08b, F08q, F08t; lazy / errs: the permitted outcomes, Spec.Permitted)
 result = `_` (empty) | atoms joined by `,` | ERR:<code>.
 Kernel probes:  rnd=<n>/<d> → the double nearest to n/d;  sig28=<n>/<d> → n/d at 28 significant digits.
 -/
@@ -233,11 +233,15 @@ def answer (line : String) : String :=
         | .fn1 .sum a | .fn2 .sum a _ => (match Spec.sem Spec.foSum a c with | .ok v => !Spec.sumAgrees v | _ => false)
         | .fn1 .avg a => (match Spec.sem Spec.foSum a c with | .ok v => !Spec.avgAgrees v | _ => false)
         | _ => false
+      let t := match e with
+        | .fn1 .sum a | .fn1 .avg a | .fn1 .min a | .fn1 .max a | .fn2 .sum a _ =>
+          (match Spec.sem Spec.foSum a c with | .ok v => Spec.hugeIntPromoted v | _ => false)
+        | _ => false
       -- the outcomes XPath permits (Spec.Permitted): the lazy value, the reachable error codes
       let lzv := (Spec.lz Spec.foSum e c).force
       let cs := (Spec.codes Spec.foSum e c).eraseDups
       let errs := if cs.isEmpty then "_" else ",".intercalate (cs.map showErr)
-      s!"model={showR m} spec={showR s} k={if e.loopVarInRange then 1 else 0} q={if q then 1 else 0} lazy={showR lzv} errs={errs}"
+      s!"model={showR m} spec={showR s} k={if e.loopVarInRange then 1 else 0} q={if q then 1 else 0} t={if t then 1 else 0} lazy={showR lzv} errs={errs}"
   | some (_, _ :: _), _, _, _, _ => "bad-expr-trailing"
   | none, _, _, _, _ => "bad-expr"
   | _, _, _, _, _ => "bad-line"
